@@ -72,6 +72,11 @@ def jobs(tier):
     J.append(V.Job("rfi.knots", H, "h_rfi_knots", ["vnacal_rfi.c"],
                    defines=["-DH_RFI_KNOTS", "-DRFI_N=4", "-DVERIF_CUT_rfi_after_search=__CPROVER_assume(0)"], unwind=6, kind="bounded", canary=True,
                    functions=["_vnacal_rfi"], bound="bounded(n<=4 knots), any hint", timeout=900))
+    J.append(V.Job("rfi.between", H, "h_rfi_between", ["vnacal_rfi.c"], stubs=["verif_libc.c"],
+                   defines=["-DH_RFI_KNOTS", "-DRFI_N=4"], unwind=8, kind="bounded", canary=False,
+                   functions=["_vnacal_rfi (values between knots: witnesses)"],
+                   bound="bounded: concrete tables of 1/(1+x) on 2, 3 and 5 knots, 10 concrete queries between knots; witnesses, not a proof",
+                   timeout=300, cbmc_flags=["--no-leak"]))
     J.append(V.Job("rfi.search", H, "h_rfi_search", ["vnacal_rfi.c"],
                    defines=["-DH_RFI_SEARCH", "-DRFI_SEARCH_NMAX=64", "-DVERIF_CUT_rfi_after_search=__CPROVER_assume(0)"], unwind=None, kind="proof",
                    canary=True, dfcc=dict(enforce=[], loops=True),
